@@ -62,6 +62,8 @@ def gen_cases(tier, seed):
         rho = float(10 ** rng.uniform(1, 3.2))
         ph = float(rng.uniform(0, 2 * np.pi))
         b = [a[0] + rho * np.cos(ph), a[1] + rho * np.sin(ph), float(rng.uniform(max(zlo, -400), -1))]
+        if fam == "uniform" and rng.random() < 0.12:
+            b[2] = a[2]          # exactly equal depths: the direct path is horizontal
         if fam == "uniform" and rng.random() < 0.3:
             # whole-number endpoints handed over as Python ints / an int array
             a = [int(round(x)) for x in a]
